@@ -49,6 +49,10 @@ def jobs_for(tier, rng, nd):
         if kind == "PI":
             job["max_eval_iter"] = rng.choice([2, 10])
             job["reset"] = rng.random() < 0.3
+            if k % 2 == 0 or nd > 1:
+                # a problem-supplied starting policy is computed state by state: it too must not depend on the layout
+                m["render"]["has_init_policy"] = True
+                m["pol0"] = [rng.randrange(m["na"]) for _ in range(ns)]
         jobs.append(job)
     # at scale: more than 1024 states (default max_batch_size) spread over the devices
     if nd > 1 or tier == "thorough":
